@@ -16,12 +16,14 @@ pub struct SweepCfg {
     pub max_dev: usize,
     pub seeds: Vec<u64>,
     pub thorough: bool,
+    /// second pass: at most two deviations among the first `.0` generator draws, menu `.1`
+    pub pairs: Option<(usize, Vec<u64>)>,
 }
 
 pub fn sweep_cfg(tier: Tier, seed: u64) -> SweepCfg {
     match tier {
-        Tier::Quick => SweepCfg { iters: 3, menu: MENU8.to_vec(), stride: 1, max_dev: 1, seeds: vec![seed, seed + 1], thorough: false },
-        Tier::Thorough => SweepCfg { iters: 4, menu: crate::engine::tape::MENU19.to_vec(), stride: 1, max_dev: 1, seeds: (0..6).map(|k| seed + k).collect(), thorough: true },
+        Tier::Quick => SweepCfg { iters: 3, menu: MENU8.to_vec(), stride: 1, max_dev: 1, seeds: vec![seed, seed + 1], thorough: false, pairs: None },
+        Tier::Thorough => SweepCfg { iters: 4, menu: crate::engine::tape::MENU19.to_vec(), stride: 1, max_dev: 1, seeds: (0..6).map(|k| seed + k).collect(), thorough: true, pairs: Some((16, MENU4.to_vec())) },
     }
 }
 
@@ -42,7 +44,8 @@ pub fn sweep(rep: &mut Report, flags: Flags, part_name: &str, filter: &dyn Fn(&s
         .bound("max_deviations", sc.max_dev as u64)
         .bound("menu_words", sc.menu.len() as u64)
         .bound("deviation_position_stride", sc.stride as u64)
-        .bound("base_seeds", sc.seeds.len() as u64);
+        .bound("base_seeds", sc.seeds.len() as u64)
+        .bound("second_pass_two_deviations_among_first_draws", sc.pairs.as_ref().map(|p| p.0 as u64).unwrap_or(0));
     let templates: HashSet<&'static str> = specs.iter().map(|s| s.template()).collect();
     part.bound("templates", templates.len() as u64);
     let jobs: Vec<(usize, u64)> = (0..specs.len()).flat_map(|i| sc.seeds.iter().map(move |s| (i, *s))).collect();
@@ -74,6 +77,33 @@ pub fn sweep(rep: &mut Report, flags: Flags, part_name: &str, filter: &dyn Fn(&s
                     Outcome::Diverged(m) => sub.machinery(format!("tape divergence in {}: {}", spec.name(), m)),
                 }
             });
+            // second pass: all pairs of deviations among the first draws (first two base seeds)
+            if let Some((depth, menu2)) = &sc.pairs {
+                if *seed <= sc.seeds[0] + 1 {
+                    let mut cfg2 = Cfg::deviations(menu2, 2, seed ^ fnv(&spec.name()));
+                    cfg2.depth[0] = *depth;
+                    cfg2.draw_cap = 20_000;
+                    tape::explore_par(&cfg2, &body, &|prefix, out, log| {
+                        if log.deviations() < 2 {
+                            return; // covered by the first pass
+                        }
+                        let mut sub = sub.lock().unwrap();
+                        sub.traces += 1;
+                        match out {
+                            Outcome::Done(o) => {
+                                sub.transitions += o.steps;
+                                digests.lock().unwrap().insert(fnv(&o.digest));
+                                for (sig, d) in &o.violations {
+                                    sub.violate(sig.clone(), d.clone(), json!({"spec": spec.name(), "tape": prefix, "seed": seed, "menu": menu2.len(), "flags": flags_json(flags), "iters": sc.iters, "thorough": sc.thorough}));
+                                }
+                            }
+                            Outcome::Panic(m) => sub.machinery(format!("harness panic outside the subject in {}: {}", spec.name(), m.chars().take(200).collect::<String>())),
+                            Outcome::Truncated => sub.truncated += 1,
+                            Outcome::Diverged(m) => sub.machinery(format!("tape divergence in {}: {}", spec.name(), m)),
+                        }
+                    });
+                }
+            }
             let mut sub = sub.into_inner().unwrap();
             sub.states = digests.into_inner().unwrap().len() as u64;
             sub.bounds.insert("max_choices".into(), json!(st.max_choices));
